@@ -332,7 +332,9 @@ def run_hypothesis(sub, tier, n, seed_value, known, rec, deadline,
         except Violation:
             found.append(Found(state["v"], state["case"]))
             excluded.add(state["target"])
-        except (Flaky, FlakyFailure):
+        except (Flaky, FlakyFailure) as flaky:
+            if state["first"] is None:
+                raise HarnessError("Hypothesis reported a flaky test without any Violation: %r" % (flaky,))
             case, v = state["first"]
             if state["v"] is not None:
                 case, v = state["case"], state["v"]
